@@ -89,6 +89,12 @@ def job_reader(res, rank):
         prove(res, '%s: the grid is sized from the file (setSize(n, 1)) before the phase space is constructed' % tag, pre, z3.Or(bvz(ss[1][0]) != z3.Extract(31, 0, n_), bvz(ss[1][1]) != 1), key='reader-size')
         nxyb = [c for c in p.pc if 'nxyb' in str(c)]
         prove(res, '%s: data are read only when the selection has exactly as many values as the grid holds (otherwise the file is refused)' % tag, p.pc, z3.BoolVal(not nxyb), key='reader-guard')
+        # after the read nothing recomputes charges / projections inside the loader: main's start-up renormalisation (RenormalizeCharge >= 0) divides by the charges the object holds, and only the
+        # constructor's own (== the set shares, C09) make that rescaling the identity - a stored state that has lost charge must not be scaled back up on continuation
+        ridx = max(i for i, e in enumerate(p.events) if e[0] == 'read')
+        later = [dm.get(e[0], str(e[0])) for e in p.events[ridx + 1:] if isinstance(e[0], str) and 'vfps::PhaseSpace::' in dm.get(e[0], '') and '~' not in dm.get(e[0], '')]
+        res.obs.append(Ob('%s: after the read the loader calls nothing on the phase space (its charges stay the constructor\'s, so main\'s start-up renormalisation leaves the loaded values as they are)' % tag, 'holds' if not later else 'violated',
+                          key='reader-no-recompute', detail=str(later[:3]), cex=None if not later else {'replay': 'structural', 'calls': later[:3]}))
         order = [e[0] for e in p.events if isinstance(e[0], str) and e[0] in ('setSize', 'make_unique', 'read')]
         res.obs.append(Ob('%s: order setSize -> construct -> read' % tag, 'holds' if order == ['setSize', 'make_unique', 'read'] else 'violated', key='reader-order', detail=str(order)))
     # refusals end in a throw (turned into a message by makePSFromHDF5): empty dataset, size mismatch
